@@ -219,6 +219,23 @@ func genWorld(t *rapid.T, maxH int, lags ...int64) *world {
 		}
 		for j := 0; j < ntx; j++ {
 			var tx []byte
+			// the same transaction bytes may occur again, in the same block or in a later one (block validation allows
+			// it; the tx index keeps one record per hash: the last occurrence)
+			if len(w.txs) > 0 && rapid.IntRange(0, 5).Draw(t, label+".repeat") == 0 {
+				src := rapid.SampledFrom(w.txs).Draw(t, label+".repeat-of")
+				if rapid.Bool().Draw(t, label+".repeat-in-block") && len(p.Txs) > 0 {
+					src = txRef{Tx: p.Txs[rapid.IntRange(0, len(p.Txs)-1).Draw(t, label+".repeat-idx")]}
+					w.feat["tx-repeated-in-block"] = true
+				} else if src.Height == h {
+					w.feat["tx-repeated-in-block"] = true
+				} else {
+					w.feat["tx-repeated-across-blocks"] = true
+				}
+				tx = append([]byte(nil), src.Tx...)
+				p.Txs = append(p.Txs, tx)
+				w.txs = append(w.txs, txRef{Height: h, Index: j, Tx: tx})
+				continue
+			}
 			if rapid.Bool().Draw(t, label+".kvtx") {
 				s := rapid.SampledFrom(stores).Draw(t, label+".store")
 				k := rapid.SampledFrom(w.keys).Draw(t, label+".key")
@@ -428,7 +445,7 @@ func (w *world) finish(t fataler) {
 func (w *world) classes() []string {
 	var cs []string
 	for _, f := range []string{"txs", "tx-events", "block-events", "val-updates", "param-updates-hashed", "param-updates-unhashed",
-		"evidence", "evidence-light-client-attack", "absent-sig", "initial>1", "node-lag=1", "node-lag=2"} {
+		"tx-repeated-in-block", "tx-repeated-across-blocks", "evidence", "evidence-light-client-attack", "absent-sig", "initial>1", "node-lag=1", "node-lag=2"} {
 		if w.feat[f] {
 			cs = append(cs, "world:"+f)
 		}
@@ -720,7 +737,9 @@ func (w *world) newVerifier(t fataler, next rpcclient.Client, trustHeight int64,
 	if err != nil {
 		t.Fatalf("VERIF-INFRA: light.NewClient: %v", err)
 	}
-	return lrpc.NewClient(next, lc, lrpc.KeyPathFn(lrpc.DefaultMerkleKeyPathFn())), lc
+	c := lrpc.NewClient(next, lc, lrpc.KeyPathFn(lrpc.DefaultMerkleKeyPathFn()))
+	c.RegisterOpDecoder(lib.C20AbsenceOpType, lib.C20AbsenceOpDecoder) // the application's own absence operator
+	return c, lc
 }
 
 func (w *world) drawVerifier(t *rapid.T, next rpcclient.Client, label string) *lrpc.Client {
